@@ -318,8 +318,8 @@ impl Prop for C01 {
         let mut seen3 = std::collections::BTreeSet::new();
         for c in c06::C06.enumerate(Tier::Quick, seed) {
             // (the single-range forms are thinned out: C06 itself visits all of them)
-            let thinned = c.form == "single" || c.form.starts_with("open");
-            let open = c.form.starts_with("open");
+            let thinned = c.form == "single" || c.form.starts_with("open") || c.form.starts_with("union-ref");
+            let open = c.form.starts_with("open") || c.form.starts_with("union-ref");
             if matches!(c.ctx.as_str(), "default" | "refdefault" | "value" | "refvalue") && (!thinned || (!open && seen2.len() < 400) || (open && seen3.len() < 400)) {
                 let t = c06::text(&c);
                 let fresh = if open { seen3.insert(fnv(&t)) } else { seen2.insert(fnv(&t)) };
